@@ -3,6 +3,7 @@ package c18
 import (
 	"context"
 	"fmt"
+	"sort"
 	"strings"
 	"testing"
 
@@ -471,7 +472,7 @@ func describeMembers(ms []revision) string {
 
 func bindingScenario(t *testing.T, rep *report.R) report.Scenario {
 	name := "binding"
-	rep.Bound("binding_alphabet", "revision {normal, paused, deleting} x presence of 4 deployments {controlled by the revision, owned (not controlled) by it, controlled by another revision, unowned}")
+	rep.Bound("binding_alphabet", "revision {normal, paused, deleting} x presence of 4 deployments {controlled by the revision, owned (not controlled) by it, controlled by another revision, unowned} x an existing binding {none, only a stale subject, stale + current subjects}")
 	return report.Scenario{Name: name, Wrap: report.Bubble(t), Body: func(r *explore.Run) {
 		xrh.BeginExecution(7)
 		s := xrh.NewStore()
@@ -508,10 +509,35 @@ func bindingScenario(t *testing.T, rep *report.R) report.Scenario {
 				ownedSA["crossplane-system/"+sa] = true
 			}
 		}
+		sysName := "crossplane:provider:" + self.name + ":system"
+		// A binding written by an earlier reconcile, when the revision ran
+		// another deployment: its service account is no longer the
+		// revision's and must lose the role.
+		existing := 0
+		if state == 0 {
+			existing = r.Free(3, "existing-binding(none, stale subject only, stale + every current subject)")
+		}
+		if existing > 0 {
+			subs := []rbacv1.Subject{{Kind: "ServiceAccount", Namespace: "crossplane-system", Name: "sa-of-an-earlier-deployment"}}
+			if existing == 2 {
+				var ids []string
+				for id := range ownedSA {
+					ids = append(ids, id)
+				}
+				sort.Strings(ids)
+				for _, id := range ids {
+					subs = append(subs, rbacv1.Subject{Kind: "ServiceAccount", Namespace: "crossplane-system", Name: strings.TrimPrefix(id, "crossplane-system/")})
+				}
+			}
+			s.Seed(&rbacv1.ClusterRoleBinding{
+				ObjectMeta: metav1.ObjectMeta{Name: sysName, OwnerReferences: []metav1.OwnerReference{controllerRef("pkg.crossplane.io/v1", "ProviderRevision", self.name, "uid-self")}},
+				RoleRef:    rbacv1.RoleRef{APIGroup: rbacv1.GroupName, Kind: "ClusterRole", Name: sysName},
+				Subjects:   subs,
+			})
+		}
 		c := s.Client("rbac-manager")
 		out := xrh.Reconcile(binding.NewReconciler(fakeMgr{c: c}), types.NamespacedName{Name: self.name})
 		r.Logf("reconcile: err=%v", out.Err)
-		sysName := "crossplane:provider:" + self.name + ":system"
 		v := &verdict{}
 		var seen []string
 		for _, u := range s.All(rbacv1.SchemeGroupVersion.WithKind("ClusterRoleBinding").GroupKind()) {
